@@ -316,76 +316,100 @@ fn tf_apis(apis: &mut Vec<Api>) {
     tf!(Threefish1024, 128);
 }
 
-/// `StoreBytes` of every vector type of a machine that has it: the length the slice must have is
-/// the vector size; other lengths must panic (length assertion) without touching memory outside
+/// `StoreBytes` of one vector type: the length the slice must have is the vector size; other lengths
+/// must panic (length assertion) without touching memory outside
+macro_rules! sb_ty {
+    ($apis:expr, $m:expr, $mname:expr, $V:ty, $vn:expr, $size:expr, $w:expr) => {{
+        let m = $m;
+        $apis.push(Api {
+            name: format!("{}::{}::read_le", $mname, $vn),
+            family: "storebytes",
+            kind: Kind::In,
+            fixed: Some($size),
+            pres: vec![0],
+            coq: CoqKind::ReadOnly,
+            f: Box::new(move |s, _| {
+                let v: $V = m.read_le(s);
+                let mut o = vec![0u8; $size];
+                v.write_le(&mut o);
+                o
+            }),
+            aux: None,
+        });
+        $apis.push(Api {
+            name: format!("{}::{}::read_be", $mname, $vn),
+            family: "storebytes",
+            kind: Kind::In,
+            fixed: Some($size),
+            pres: vec![0],
+            coq: CoqKind::ReadOnly,
+            f: Box::new(move |s, _| {
+                let v: $V = m.read_be(s);
+                let mut o = vec![0u8; $size];
+                v.write_le(&mut o);
+                o
+            }),
+            aux: None,
+        });
+        $apis.push(Api {
+            name: format!("{}::{}::write_le", $mname, $vn),
+            family: "storebytes",
+            kind: Kind::Out,
+            fixed: Some($size),
+            pres: vec![0],
+            coq: CoqKind::Copy,
+            f: Box::new(move |s, _| {
+                let v: $V = m.read_le(&pattern($size, 0x51));
+                v.write_le(s);
+                vec![]
+            }),
+            aux: Some(Box::new(|_, _| pattern($size, 0x51))),
+        });
+        $apis.push(Api {
+            name: format!("{}::{}::write_be", $mname, $vn),
+            family: "storebytes",
+            kind: Kind::Out,
+            fixed: Some($size),
+            pres: vec![0],
+            coq: CoqKind::Bswap($w),
+            f: Box::new(move |s, _| {
+                let v: $V = m.read_le(&pattern($size, 0x52));
+                v.write_be(s);
+                vec![]
+            }),
+            aux: Some(Box::new(|_, _| pattern($size, 0x52))),
+        });
+    }};
+}
+
+/// the five vector types whose `StoreBytes` the Machine bounds promise
 fn sb_apis<M: Machine + 'static>(m: M, mname: &str, apis: &mut Vec<Api>) {
-    macro_rules! ty {
-        ($V:ty, $vn:expr, $size:expr, $w:expr) => {{
-            apis.push(Api {
-                name: format!("{}::{}::read_le", mname, $vn),
-                family: "storebytes",
-                kind: Kind::In,
-                fixed: Some($size),
-                pres: vec![0],
-                coq: CoqKind::ReadOnly,
-                f: Box::new(move |s, _| {
-                    let v: $V = m.read_le(s);
-                    let mut o = vec![0u8; $size];
-                    v.write_le(&mut o);
-                    o
-                }),
-                aux: None,
-            });
-            apis.push(Api {
-                name: format!("{}::{}::read_be", mname, $vn),
-                family: "storebytes",
-                kind: Kind::In,
-                fixed: Some($size),
-                pres: vec![0],
-                coq: CoqKind::ReadOnly,
-                f: Box::new(move |s, _| {
-                    let v: $V = m.read_be(s);
-                    let mut o = vec![0u8; $size];
-                    v.write_le(&mut o);
-                    o
-                }),
-                aux: None,
-            });
-            apis.push(Api {
-                name: format!("{}::{}::write_le", mname, $vn),
-                family: "storebytes",
-                kind: Kind::Out,
-                fixed: Some($size),
-                pres: vec![0],
-                coq: CoqKind::Copy,
-                f: Box::new(move |s, _| {
-                    let v: $V = m.read_le(&pattern($size, 0x51));
-                    v.write_le(s);
-                    vec![]
-                }),
-                aux: Some(Box::new(|_, _| pattern($size, 0x51))),
-            });
-            apis.push(Api {
-                name: format!("{}::{}::write_be", mname, $vn),
-                family: "storebytes",
-                kind: Kind::Out,
-                fixed: Some($size),
-                pres: vec![0],
-                coq: CoqKind::Bswap($w),
-                f: Box::new(move |s, _| {
-                    let v: $V = m.read_le(&pattern($size, 0x52));
-                    v.write_be(s);
-                    vec![]
-                }),
-                aux: Some(Box::new(|_, _| pattern($size, 0x52))),
-            });
-        }};
-    }
-    ty!(M::u32x4, "u32x4", 16, 4);
-    ty!(M::u32x4x2, "u32x4x2", 32, 4);
-    ty!(M::u64x2x2, "u64x2x2", 32, 8);
-    ty!(M::u64x4, "u64x4", 32, 8);
-    ty!(M::u32x4x4, "u32x4x4", 64, 4);
+    sb_ty!(apis, m, mname, M::u32x4, "u32x4", 16, 4);
+    sb_ty!(apis, m, mname, M::u32x4x2, "u32x4x2", 32, 4);
+    sb_ty!(apis, m, mname, M::u64x2x2, "u64x2x2", 32, 8);
+    sb_ty!(apis, m, mname, M::u64x4, "u64x4", 32, 8);
+    sb_ty!(apis, m, mname, M::u32x4x4, "u32x4x4", 64, 4);
+}
+/// `StoreBytes` impls beyond the Machine bounds that both back-end families have (the x2/x4
+/// wrappers of soft.rs forward to them; they are also callable directly)
+fn sb_apis_more<M: Machine + 'static>(m: M, mname: &str, apis: &mut Vec<Api>)
+where
+    M::u64x2: StoreBytes,
+    M::u64x2x4: StoreBytes,
+{
+    sb_ty!(apis, m, mname, M::u64x2, "u64x2", 16, 8);
+    sb_ty!(apis, m, mname, M::u64x2x4, "u64x2x4", 64, 8);
+}
+/// ... and those only the x86 types have (u128x1_generic has no StoreBytes)
+fn sb_apis_u128<M: Machine + 'static>(m: M, mname: &str, apis: &mut Vec<Api>)
+where
+    M::u128x1: StoreBytes,
+    M::u128x2: StoreBytes,
+    M::u128x4: StoreBytes,
+{
+    sb_ty!(apis, m, mname, M::u128x1, "u128x1", 16, 16);
+    sb_ty!(apis, m, mname, M::u128x2, "u128x2", 32, 16);
+    sb_ty!(apis, m, mname, M::u128x4, "u128x4", 64, 16);
 }
 
 fn build_apis(families: &HashSet<String>) -> Vec<Api> {
@@ -429,21 +453,29 @@ fn build_apis(families: &HashSet<String>) -> Vec<Api> {
         #[cfg(not(feature = "no_simd"))]
         unsafe {
             use ppv_lite86::x86_64::{AVX2, SSE2, SSE41, SSSE3};
-            sb_apis(SSE2::instance(), "SSE2", &mut apis);
+            macro_rules! all3 {
+                ($M:ident, $n:expr) => {{
+                    sb_apis($M::instance(), $n, &mut apis);
+                    sb_apis_more($M::instance(), $n, &mut apis);
+                    sb_apis_u128($M::instance(), $n, &mut apis);
+                }};
+            }
+            all3!(SSE2, "SSE2");
             if is_x86_feature_detected!("ssse3") {
-                sb_apis(SSSE3::instance(), "SSSE3", &mut apis);
+                all3!(SSSE3, "SSSE3");
             }
             if is_x86_feature_detected!("sse4.1") {
-                sb_apis(SSE41::instance(), "SSE41/AVX", &mut apis);
+                all3!(SSE41, "SSE41/AVX");
             }
             if is_x86_feature_detected!("avx2") {
-                sb_apis(AVX2::instance(), "AVX2", &mut apis);
+                all3!(AVX2, "AVX2");
             }
         }
         #[cfg(feature = "no_simd")]
         unsafe {
             use ppv_lite86::generic::GenericMachine;
             sb_apis(GenericMachine::instance(), "Generic", &mut apis);
+            sb_apis_more(GenericMachine::instance(), "Generic", &mut apis);
         }
     }
     apis
@@ -497,6 +529,13 @@ fn gen_cases(apis: &[Api], quick: bool, nalign: usize) -> Vec<Case> {
     // (head placement) / its start (tail placement) takes every alignment while the other end
     // abuts the unmapped page
     let sweep_bases: Vec<usize> = if quick { vec![0, 64, 128, 192, 256, 448, 1000] } else { vec![0, 64, 128, 192, 256, 320, 448, 512, 704, 1000, 4032, 4096] };
+    // quick tier, large inputs (>= 2 KiB: batching / prefetching code would first show here; 4096 and 4097
+    // span a whole page and cross the page boundary inside the mapped region): a thinned set of
+    // placements (both ends of the alignment range and the 16/32-byte boundaries) ...
+    let big_classes: Vec<usize> = if quick { vec![2048, 4096, 4097] } else { vec![] };
+    let big_aligns: [usize; 8] = [0, 1, 15, 16, 31, 32, 33, 63];
+    // ... and one sweep 4032..4095 ending at the last mapped byte (the start takes every alignment)
+    let tail_sweep_bases: Vec<usize> = if quick { vec![4032] } else { vec![] };
     let mut seen = HashSet::new();
     let mut out = Vec::new();
     let mut push = |c: Case, out: &mut Vec<Case>| {
@@ -517,6 +556,18 @@ fn gen_cases(apis: &[Api], quick: bool, nalign: usize) -> Vec<Case> {
                         for &b in &sweep_bases {
                             for d in 0..64 {
                                 push(Case { api: i, tail, a: 0, len: b + d, pre }, &mut out);
+                            }
+                        }
+                        for &len in &big_classes {
+                            for &a in big_aligns.iter().filter(|&&a| a < nalign.max(1)) {
+                                push(Case { api: i, tail, a, len, pre }, &mut out);
+                            }
+                        }
+                        if tail {
+                            for &b in &tail_sweep_bases {
+                                for d in 0..64 {
+                                    push(Case { api: i, tail, a: 0, len: b + d, pre }, &mut out);
+                                }
                             }
                         }
                     }
@@ -814,9 +865,14 @@ fn mem(a: &Args) {
     // which cases go to Coq: an even stride over the cases that are short enough, rotated by the seed
     let eligible: Vec<usize> = (0..cases.len()).filter(|&i| cases[i].len <= 320).collect();
     let mut emit = vec![false; cases.len()];
+    let mut sample_desc = String::from("{}");
     if coqcases > 0 && !eligible.is_empty() {
         let stride = (eligible.len() / coqcases).max(1);
         let rot = (seed as usize) % stride;
+        sample_desc = format!(
+            "{{\"eligible_cases_len_le_320\":{},\"stride\":{},\"rotation_seed_mod_stride\":{},\"note\":\"every guarded run is compared with the aligned run in the harness; only this even sub-sample is re-computed by the Coq window model\"}}",
+            eligible.len(), stride, rot
+        );
         for (k, &i) in eligible.iter().enumerate() {
             if k % stride == rot {
                 emit[i] = true;
@@ -880,13 +936,15 @@ fn mem(a: &Args) {
         format!("{{{}}}", m.iter().map(|(k, v)| format!("{}:{}", jstr(k), v)).collect::<Vec<_>>().join(","))
     };
     println!(
-        "{{\"evaluations\":{},\"distinct_nontrivial\":{},\"direct_failures\":[{}],\"failing_cases\":{},\"samples\":[{}],\"coq_window_cases\":{},\"apis\":{},\"api_names\":[{}],\"by_family\":{},\"placements\":{},\"start_alignments_head\":{},\"start_alignments_tail\":{},\"free_end_alignments_at_first_mapped_byte\":{},\"start_alignments_ending_at_last_mapped_byte\":{},\"distinct_lengths\":{},\"max_length\":{},\"mapped_pages\":{},\"guard_pages\":2,\"signals\":{},\"backend_level\":{},\"backend\":{},\"profile\":{},\"children\":\"fork per run, restarted behind a killed case\"}}",
+        "{{\"evaluations\":{},\"distinct_nontrivial\":{},\"direct_failures\":[{}],\"failing_cases\":{},\"samples\":[{}],\"coq_window_cases\":{},\"coq_sample\":{},\"cases_len_ge_2048\":{},\"apis\":{},\"api_names\":[{}],\"by_family\":{},\"placements\":{},\"start_alignments_head\":{},\"start_alignments_tail\":{},\"free_end_alignments_at_first_mapped_byte\":{},\"start_alignments_ending_at_last_mapped_byte\":{},\"distinct_lengths\":{},\"max_length\":{},\"mapped_pages\":{},\"guard_pages\":2,\"signals\":{},\"backend_level\":{},\"backend\":{},\"profile\":{},\"children\":\"fork per run, restarted behind a killed case\"}}",
         cases.len(),
         distinct.len(),
         direct.join(","),
         nfail,
         samples.join(","),
         coq.len(),
+        sample_desc,
+        cases.iter().filter(|c| c.len >= 2048).count(),
         apis.len(),
         apis.iter().map(|a| jstr(&a.name)).collect::<Vec<_>>().join(","),
         mapj(&by_family),
